@@ -4,3 +4,63 @@ package jd
 
 // Contracts for the v1 library (package jd in lib/), read by the verifier in /verif (jdvc).
 // This file contains only comments.
+
+//@ contract checkMetadata
+//@   ensures ret0 == specHasMeta(metadata, want)
+//@   loop "range metadata" invariant specHasMeta(metadata, want) == specHasMeta(metadata[idx:], want)
+//@   carries C17
+
+//@ contract getPrecision
+//@   ensures ret0 == specPrecision(metadata)
+//@   loop "range metadata" invariant specPrecision(metadata) == specPrecision(metadata[idx:])
+//@   carries C17
+
+//@ contract dispatch
+//@   ensures same(ret0, specDispatch(n, metadata))
+//@   carries C17
+
+//@ contract JsonNode.Equals
+//@   requires validNode(self) && validNode(n)
+//@   ensures [C17] ret0 == specEq(self, n, metadata)
+//@   carries C17
+
+//@ contract (jsonList).Equals
+//@   loop "range l1" invariant specEqList(l1[:idx], l2[:idx], metadata)
+
+//@ contract (jsonObject).Equals
+//@   loop "range o1" invariant forallKey(o1, o1, func(k string) bool { return !visited(k) || (mapHas(o2, k) && specEq(o1[k], o2[k], metadata)) })
+
+// Set and multiset equality is decided by hash codes; jsonStringOrInteger compares through
+// strconv.Atoi: bounded only.
+//@ contract (jsonSet).Equals
+//@   assume_iface 0 set equality is decided by comparing combined hash codes
+//@ contract (jsonMultiset).Equals
+//@   assume_iface 0 multiset equality is decided by comparing sorted hash codes
+//@ contract (jsonStringOrInteger).Equals
+//@   assume_iface 0 deferred string-or-integer token (only created by the JSON Pointer reader)
+
+//@ contract diff
+//@   requires validNode(a) && validNode(b)
+//@   ensures [C17] (len(ret0) == 0) == specEq(a, b, metadata)
+//@   carries C17
+
+// ---------------------------------------------------------------------
+// Property-level stand-ins (bounded, never counted as proved).
+
+//@ contract verifV1RoundTrip
+//@   bounded
+//@   requires validNode(a) && validNode(b) && verifV1Domain(a, b, metadata)
+//@   ensures_bounded ret0 == ""
+//@   carries C17
+
+//@ contract verifV1Patch
+//@   bounded
+//@   requires validNode(a) && validNode(b)
+//@   ensures_bounded ret0 == ""
+//@   carries C18
+
+//@ contract verifV1Merge
+//@   bounded
+//@   requires validNode(a) && validNode(b)
+//@   ensures_bounded ret0 == ""
+//@   carries C18
